@@ -23,6 +23,11 @@ Section Ext.
   Variable h : hay.
   Hypothesis Ah : A h.
   Notation len := (length h).
+  Hypothesis Hnrp : forall p, (p <= len)%nat -> ix_next_right_pos ix1 h p = ix_next_right_pos ix2 h p.
+  Hypothesis Hnlp : forall p, (p <= len)%nat -> ix_next_left_pos ix1 h p = ix_next_left_pos ix2 h p.
+
+  Lemma step_inv_ext fwd q q' : (q <= len)%nat -> (q' <= len)%nat -> step_inv ix1 h fwd q q' = step_inv ix2 h fwd q q'.
+  Proof. intros Hq Hq'. unfold step_inv. destruct fwd; rewrite ?(Hnrp q Hq), ?(Hnrp q' Hq'), ?(Hnlp q Hq), ?(Hnlp q' Hq'); reflexivity. Qed.
 
   Lemma cnext_ext h' fwd p : A h' -> (p <= length h')%nat -> cnext ix1 fwd h' p = cnext ix2 fwd h' p.
   Proof. intros Ha Hp. unfold cnext. destruct fwd; [apply Hnr|apply Hnl]; assumption. Qed.
@@ -150,15 +155,18 @@ Section Ext.
     rewrite Hit. reflexivity.
   Qed.
 
-  Lemma l1_ext (s1 s2 : nat -> option (option nat)) G mn mx gr :
+  Lemma l1_ext (s1 s2 : nat -> option (option nat)) (c1 c2 : nat -> nat -> bool) G mn mx gr :
     (forall q, (q <= len)%nat -> s1 q = s2 q) ->
+    (forall q q', (q <= len)%nat -> (q' <= len)%nat -> c1 q q' = c2 q q') ->
     (forall q q', (q <= len)%nat -> s1 q = Some (Some q') -> (q' <= len)%nat) ->
-    forall lf k q, (q <= len)%nat -> l1_results s1 G mn mx gr lf k q = l1_results s2 G mn mx gr lf k q.
+    forall lf k q, (q <= len)%nat -> l1_results s1 c1 G mn mx gr lf k q = l1_results s2 c2 G mn mx gr lf k q.
   Proof.
-    intros Heq Hrg. induction lf as [|lf IH]; intros k q Hq; [reflexivity|]. cbn [l1_results].
+    intros Heq Hchk Hrg. induction lf as [|lf IH]; intros k q Hq; [reflexivity|]. cbn [l1_results].
     rewrite <- (Heq q Hq).
     destruct (if k <? max_val mx then s1 q else Some None) as [[q'|]|] eqn:Et; try reflexivity.
-    rewrite IH; [reflexivity|]. destruct (k <? max_val mx); [eapply Hrg; eauto|discriminate].
+    assert (Hq' : (q' <= len)%nat) by (destruct (k <? max_val mx); [eapply Hrg; eauto|discriminate]).
+    rewrite <- (Hchk q q' Hq Hq'). destruct (c1 q q'); [|reflexivity].
+    rewrite IH; [reflexivity|exact Hq'].
   Qed.
 
   Lemma pieces_run_ext lb fwd : forall l q, (q <= len)%nat ->
@@ -200,17 +208,16 @@ Section Ext.
     - (* Loop1CharBody *)
       unfold single_step.
       destruct (leaf_code (negb fwd) body) as [code|].
-      + apply l1_ext; [intros q Hq; apply run_insns_ext; exact Hq| |exact Hp].
+      + apply l1_ext; [intros q Hq; apply run_insns_ext; exact Hq|intros; apply step_inv_ext; assumption| |exact Hp].
         intros q q' Hq Hs. eapply (run_insns_range ix1 unicode h Hcur); eauto.
       + destruct body; try reflexivity.
-        apply l1_ext; [| |exact Hp].
+        apply l1_ext; [|intros; apply step_inv_ext; assumption| |exact Hp].
         * intros q Hq. rewrite (next_if_ext fwd q _ Hq). reflexivity.
         * intros q q' Hq Hs. destruct (next_if ix1 fwd h q (bracket_matches b)) as [e|r] eqn:En; [discriminate|].
           inversion Hs; subst r. eapply (next_if_range ix1 h Hcur); eauto.
   Qed.
 
   (* the search loop *)
-  Hypothesis Hnrp : forall p, (p <= len)%nat -> ix_next_right_pos ix1 h p = ix_next_right_pos ix2 h p.
   Hypothesis Hnrp_bound : forall p p', (p <= len)%nat -> ix_next_right_pos ix1 h p = Ok (Some p') -> (p' <= len)%nat.
 
   Theorem ir_search_ext fuel n ngroups : forall tries p, (p <= len)%nat ->
